@@ -197,3 +197,23 @@ P("seed-C13-2", ["C13"], "seeded/C13-2/patch.diff", rule="R-C13-5")
 N("c13-ignorecase-spelling", ["C13"], "tokenizers.py", "            if e.strings and not e.flags & re.I\n", "            if e.strings and not e.flags & re.IGNORECASE\n")
 N("c13-order-by-comprehension", ["C13"], "tokenizers.py", "        return sorted(\n            unique_extractors, key=lambda e: self.extractor_order[id(e)]\n        )\n",
   "        return [e for e in self.extractors if e in unique_extractors]\n")
+
+# ------------------------------------------------------------------ C15
+B("c15-merge-dedupe-through-set", ["C15"], "models.py", "                self.exact_editions = tuple(dict.fromkeys(self.exact_editions))\n", "                self.exact_editions = tuple(set(self.exact_editions))\n", rule="R-C15-1")
+B("c15-get-extractors-returns-set", ["C15"], "tokenizers.py", "        return sorted(\n            unique_extractors, key=lambda e: self.extractor_order[id(e)]\n        )\n", "        return unique_extractors\n", rule="R-C15-1")
+B("c15-dedupe-citations-through-set", ["C15"], "helpers.py", "    citations = list(\n        {citation.span(): citation for citation in citations}.values()\n    )\n",
+  "    citations = list(set(citations))\n", rule="R-C15-1")
+B("c15-module-level-cache", ["C15"], "helpers.py", "    court_str = re.sub(r\"[^\\w]\", \"\", paren_string).lower()\n",
+  "    court_str = re.sub(r\"[^\\w]\", \"\", paren_string).lower()\n    _SEEN_COURTS.append(court_str)\n", rule="R-C15-3")
+B("c15-tokenizer-keeps-last-text", ["C15"], "tokenizers.py", "        citation_tokens = []\n        all_tokens: Tokens = []\n", "        citation_tokens = []\n        self.last_text = text\n        all_tokens: Tokens = []\n", rule="R-C15-3")
+B("c15-extractor-mutated", ["C15"], "tokenizers.py", "            for match in extractor.get_matches(text):\n", "            extractor.strings.append(text[:1])\n            for match in extractor.get_matches(text):\n", rule="R-C15-3")
+B("c15-random-tiebreak", ["C15"], "tokenizers.py", "key=lambda m: (m.start, -m.end)", "key=lambda m: (m.start, -m.end, random.random())", rule="R-C15-4")
+B("c15-citation-hash-uses-str-hash", ["C15"], "models.py",
+  "        return hash(\n            hash_sha256(\n                {**dict(self.groups.items()), **{\"class\": type(self).__name__}}\n            )\n        )\n",
+  "        return hash(repr(sorted(self.groups.items())) + type(self).__name__)\n", rule="R-C15-2")
+B("c15-time-dependent-year", ["C15"], "helpers.py", "    if year < 1600 or year > _highest_valid_year:\n", "    if year < 1600 or year > date.today().year + 1:\n", rule="R-C15-4")
+P("seed-C15-1", ["C15"], "seeded/C15-1/patch.diff", rule="R-C15-3")
+P("seed-C15-2", ["C15"], "seeded/C15-2/patch.diff", rule="R-C15-3")
+N("c15-sorted-set", ["C15"], "find.py", "    cite_sources = set(\n        e.reporter.source\n        for e in (token.exact_editions or token.variation_editions)\n    )\n",
+  "    cite_sources = frozenset(\n        e.reporter.source\n        for e in (token.exact_editions or token.variation_editions)\n    )\n")
+N("c15-local-fresh-mutation", ["C15"], "helpers.py", "    filtered_citations: List[CitationBase] = [sorted_citations[0]]\n", "    filtered_citations: List[CitationBase] = []\n    filtered_citations.append(sorted_citations[0])\n")
